@@ -117,6 +117,23 @@ func (p *Prog) expr(v ssa.Value, onPath map[ssa.Value]bool, depth int) *Expr {
 		fld := fieldOf(v.X.Type(), v.Field)
 		return &Expr{Op: "field", Name: fld.Name(), Args: []*Expr{p.baseOf(v.X, v, onPath, depth)}, Val: v, Obj: fld}
 	case *ssa.Field:
+		// a field of a struct value that was put together by a literal (possibly
+		// one of several, merged by a φ - `ep := splitEndpoint(..)` after
+		// inlining) is what the literal put there
+		if alts := structFieldValues(v.X, v.Field, 0); alts != nil {
+			if len(alts) == 1 {
+				return sub(alts[0])
+			}
+			e := &Expr{Op: "phi", Val: v}
+			for _, a := range alts {
+				e.Args = append(e.Args, sub(a))
+			}
+			e.Args = dedupe(e.Args)
+			if len(e.Args) == 1 {
+				return e.Args[0]
+			}
+			return e
+		}
 		fld := fieldOf(v.X.Type(), v.Field)
 		return &Expr{Op: "field", Name: fld.Name(), Args: []*Expr{sub(v.X)}, Val: v, Obj: fld}
 	case *ssa.IndexAddr:
@@ -406,6 +423,39 @@ func (p *Prog) load(u *ssa.UnOp, onPath map[ssa.Value]bool, depth int) *Expr {
 					e.Args = append(e.Args, p.expr(el, onPath, depth+1))
 				}
 				return e
+			}
+		}
+	}
+	if fa, ok := u.X.(*ssa.FieldAddr); ok && root == nil {
+		// a field of a local struct variable that only receives literal values;
+		// read where it is declared, or in a literal that captures it (then what
+		// it held when the literal was created)
+		al, _ := fa.X.(*ssa.Alloc)
+		var at ssa.Instruction = u
+		if fv, isFV := fa.X.(*ssa.FreeVar); isFV {
+			if r2 := p.cellRoot(fv); r2 != nil {
+				mc := p.parents[u.Parent()]
+				for mc != nil && mc.Parent() != r2.Parent() {
+					mc = p.parents[mc.Parent()]
+				}
+				if mc != nil {
+					al, at = r2, mc
+				}
+			}
+		}
+		if al != nil {
+			if _, isStruct := al.Type().Underlying().(*types.Pointer).Elem().Underlying().(*types.Struct); isStruct {
+				if alts := structFieldOfLocal(al, fa.Field, at, 0); alts != nil {
+					e := &Expr{Op: "phi", Val: u}
+					for _, a := range alts {
+						e.Args = append(e.Args, p.expr(a, onPath, depth+1))
+					}
+					e.Args = dedupe(e.Args)
+					if len(e.Args) == 1 {
+						return e.Args[0]
+					}
+					return e
+				}
 			}
 		}
 	}
@@ -881,6 +931,147 @@ func constTable(al *ssa.Alloc, ld *ssa.UnOp) []ssa.Value {
 		}
 	}
 	return elems
+}
+
+// structFieldValues: the values field f of struct value x can hold when x is
+// the value of composite literals (a load of a local that is filled field by
+// field in its own block and otherwise only read), possibly several merged by
+// φ-nodes. nil when x is anything else. A field the literal does not mention is
+// reported as nil too (the zero value is not modelled here).
+func structFieldValues(x ssa.Value, f int, depth int) []ssa.Value {
+	if depth > 4 {
+		return nil
+	}
+	switch v := x.(type) {
+	case *ssa.Phi:
+		var out []ssa.Value
+		for _, e := range v.Edges {
+			a := structFieldValues(e, f, depth+1)
+			if a == nil {
+				return nil
+			}
+			out = append(out, a...)
+		}
+		return out
+	case *ssa.UnOp:
+		if v.Op != token.MUL {
+			return nil
+		}
+		al, ok := v.X.(*ssa.Alloc)
+		if !ok {
+			return nil
+		}
+		return structFieldOfLocal(al, f, v, depth)
+	}
+	return nil
+}
+
+// structFieldOfLocal: what field f of local struct variable al can hold when
+// instruction at reads it.
+func structFieldOfLocal(al *ssa.Alloc, f int, at ssa.Instruction, depth int) []ssa.Value {
+	v := at
+	{
+		// every write to the variable: whole values and single fields; nothing
+		// else may hold its address; no write may come after the read
+		var out []ssa.Value
+		for _, ref := range *al.Referrers() {
+			switch r := ref.(type) {
+			case *ssa.Store:
+				if r.Addr != ssa.Value(al) || MayFollow(v, r) {
+					return nil
+				}
+				a := structFieldValues(r.Val, f, depth+1)
+				if a == nil {
+					return nil
+				}
+				out = append(out, a...)
+			case *ssa.FieldAddr:
+				for _, r2 := range *r.Referrers() {
+					switch u := r2.(type) {
+					case *ssa.Store:
+						if u.Addr != ssa.Value(r) || MayFollow(v, u) {
+							return nil
+						}
+						if r.Field == f {
+							out = append(out, u.Val)
+						}
+					case *ssa.UnOp:
+						if u.Op != token.MUL {
+							return nil
+						}
+					case *ssa.DebugRef:
+					default:
+						return nil
+					}
+				}
+			case *ssa.UnOp:
+				if r.Op != token.MUL {
+					return nil
+				}
+			case *ssa.MakeClosure:
+				// captured: fine as long as the literal only reads fields of it
+				fn, _ := r.Fn.(*ssa.Function)
+				for i, bv := range r.Bindings {
+					if bv != ssa.Value(al) {
+						continue
+					}
+					if fn == nil || i >= len(fn.FreeVars) || !readOnlyStructRef(fn.FreeVars[i], 0) {
+						return nil
+					}
+				}
+			case *ssa.DebugRef:
+			default:
+				return nil
+			}
+		}
+		if len(out) == 0 {
+			return nil
+		}
+		return out
+	}
+}
+
+// readOnlyStructRef: the pointer is used only to read fields through it, here
+// and in literals it is handed on to.
+func readOnlyStructRef(ptr ssa.Value, depth int) bool {
+	refs := ptr.Referrers()
+	if refs == nil || depth > 4 {
+		return false
+	}
+	for _, ref := range *refs {
+		switch r := ref.(type) {
+		case *ssa.FieldAddr:
+			for _, r2 := range *r.Referrers() {
+				switch u := r2.(type) {
+				case *ssa.UnOp:
+					if u.Op != token.MUL {
+						return false
+					}
+				case *ssa.DebugRef:
+				default:
+					return false
+				}
+			}
+		case *ssa.UnOp:
+			if r.Op != token.MUL {
+				return false
+			}
+		case *ssa.MakeClosure:
+			fn, _ := r.Fn.(*ssa.Function)
+			for i, bv := range r.Bindings {
+				if bv != ptr {
+					continue
+				}
+				if fn == nil || i >= len(fn.FreeVars) || !readOnlyStructRef(fn.FreeVars[i], depth+1) {
+					return false
+				}
+			}
+		case *ssa.DebugRef:
+		default:
+			return false
+		}
+	}
+	return true
 }
 
 // sliceLitTable: v is the whole-array slice of a local array that is filled,
